@@ -10,9 +10,9 @@ open JS
 
 /-! ### comparisons are decided on exact mathematical values -/
 
-theorem lt_exact (a b : Num) : Num.lt a b = true ↔ Spec.val a < Spec.val b := by sorry
-theorem le_exact (a b : Num) : Num.le a b = true ↔ Spec.val a ≤ Spec.val b := by sorry
-theorem eq_exact (a b : Num) : Num.eq a b = true ↔ Spec.val a = Spec.val b := by sorry
+theorem lt_exact (a b : Num) : Num.lt a b = true ↔ Spec.val a < Spec.val b := Num.lt_iff a b
+theorem le_exact (a b : Num) : Num.le a b = true ↔ Spec.val a ≤ Spec.val b := Num.le_iff a b
+theorem eq_exact (a b : Num) : Num.eq a b = true ↔ Spec.val a = Spec.val b := Num.eq_iff a b
 
 /-- the built-in `number` predicate is in force -/
 def NumberGate (cfg : Cfg) : Prop := lookupS (skey "number") cfg.types = some .isNumber
@@ -23,7 +23,7 @@ theorem bounds_exact_d67 (cfg : Cfg) (hg : NumberGate cfg) (i b : Num) (st : RSt
     ∧ ((kwMaximum cfg (.num b) (.num i) none st).errs = [] ↔ Spec.val i ≤ Spec.val b)
     ∧ ((kwExclusiveMinimum cfg (.num b) (.num i) none st).errs = [] ↔ Spec.val b < Spec.val i)
     ∧ ((kwExclusiveMaximum cfg (.num b) (.num i) none st).errs = [] ↔ Spec.val i < Spec.val b) := by
-  sorry
+  exact kwBounds_d67 cfg hg i b st
 
 /-- drafts 3/4: the boolean modifier read from the sibling keyword selects `<` or `≤` -/
 theorem bounds_exact_d34 (cfg : Cfg) (hg : NumberGate cfg) (i b : Num) (kvs : List (Str × Json)) (st : RState) :
@@ -33,37 +33,38 @@ theorem bounds_exact_d34 (cfg : Cfg) (hg : NumberGate cfg) (i b : Num) (kvs : Li
     ∧ ((kwMaximumDraft3Draft4 cfg (.num b) (.num i) (.obj kvs) none st).errs = [] ↔
         if truthy ((Json.lookup (skey "exclusiveMaximum") kvs).getD (.bool false))
         then Spec.val i < Spec.val b else Spec.val i ≤ Spec.val b) := by
-  sorry
+  exact kwBounds_d34 cfg hg i b kvs st
 
 /-- non-numbers are ignored by every bound keyword -/
 theorem bounds_ignore_non_numbers (cfg : Cfg) (hg : NumberGate cfg) (t : String) (f : Num → Num → Bool)
     (bound inst : Json) (h : inst.isNumJ = false) (b : Option Nat) (st : RState) :
     (kwBound cfg t f bound inst b st).errs = [] ∧ (kwBound cfg t f bound inst b st).stop = .done
       ∨ (kwBound cfg t f bound inst b st).stop = .budget := by
-  sorry
+  rw [kwBound_nonnum cfg hg t f bound inst h]
+  exact nothing_out b st
 
 /-! ### multipleOf / divisibleBy -/
 
 /-- integer operands of any size: exact divisibility -/
 theorem multipleOf_int (i d : Int) (hd : d ≠ 0) :
-    multipleOfFailed (.int i) (.int d) = .ok (decide (¬ d ∣ i)) := by
-  sorry
+    multipleOfFailed (.int i) (.int d) = .ok (decide (¬ d ∣ i)) :=
+  multipleOfFailed_int i d hd
 
 /-- no finite operands make it raise (a zero divisor is excluded by every metaschema) -/
 theorem multipleOf_never_raises (i d : Num) (hd : d.isZero = false) :
-    ∃ failed, multipleOfFailed i d = .ok failed := by
-  sorry
+    ∃ failed, multipleOfFailed i d = .ok failed :=
+  multipleOfFailed_ok i d hd
 
 /-- the `Fraction` fallback is exact -/
 theorem exactMultiple_spec (a b : Num) (hb : b.isZero = false) :
-    Num.exactMultiple a b = true ↔ Spec.isInt (Spec.val a / Spec.val b) := by
-  sorry
+    Num.exactMultiple a b = true ↔ Spec.isInt (Spec.val a / Spec.val b) :=
+  Num.exactMultiple_iff a b hb
 
 /-- `exactDouble?` recognises exactly the binary64 values -/
 theorem exactDouble_spec (num den : Nat) (hden : 0 < den) :
     (∃ m e, Num.exactDouble? num den = some (m, e) ∧ (num : Rat) / (den : Rat) = (m : Rat) * (2 : Rat) ^ e)
-      ↔ Spec.isDouble ((num : Rat) / (den : Rat)) := by
-  sorry
+      ↔ Spec.isDouble ((num : Rat) / (den : Rat)) :=
+  Num.exactDouble?_iff num den hden
 
 /-- float divisor, exact sub-domain: the (converted) instance is exactly representable and the
     exact quotient is representable or overflows: the verdict is exact divisibility. This covers
@@ -72,20 +73,20 @@ theorem multipleOf_float_divisor_exact (i d : Num) (hdf : d.isFloat = true) (hd 
     (hi : Spec.isDouble (Spec.val i))
     (hq : Spec.isDouble (Spec.val i / Spec.val d) ∨ (2 : Rat) ^ (1024 : Nat) ≤ Spec.val i / Spec.val d
         ∨ Spec.val i / Spec.val d ≤ -(2 : Rat) ^ (1024 : Nat)) :
-    multipleOfFailed i d = .ok (decide (¬ Num.exactMultiple i d = true)) := by
-  sorry
+    multipleOfFailed i d = .ok (decide (¬ Num.exactMultiple i d = true)) :=
+  multipleOfFailed_float_divisor i d hdf hd hi hq
 
 /-- integer divisor against a float instance, exact sub-domain: the divisor converts exactly -/
 theorem multipleOf_int_divisor_exact (x : Num) (m : Int) (hx : x.isFloat = true) (hm : m ≠ 0)
     (hconv : Spec.isDouble (m : Rat)) :
-    multipleOfFailed x (.int m) = .ok (decide (¬ Num.exactMultiple x (.int m) = true)) := by
-  sorry
+    multipleOfFailed x (.int m) = .ok (decide (¬ Num.exactMultiple x (.int m) = true)) :=
+  multipleOfFailed_int_divisor x m hx hm hconv
 
 /-- the keyword itself, under the built-in number gate, never raises for a non-zero divisor -/
 theorem kwMultipleOf_total (cfg : Cfg) (hg : NumberGate cfg) (i d : Num) (hd : d.isZero = false)
     (b : Option Nat) (st : RState) :
-    ∀ e, (kwMultipleOf cfg (.num d) (.num i) b st).stop ≠ .raised e := by
-  sorry
+    ∀ e, (kwMultipleOf cfg (.num d) (.num i) b st).stop ≠ .raised e :=
+  kwMultipleOf_no_raise cfg hg i d hd b st
 
 /-! tests (not the claim) -/
 deriving instance DecidableEq for Except
